@@ -274,8 +274,11 @@ def judge(prop, case, impl, model):
                 else:
                     ids = int(w[1])
                     sel = lambda l: bool(ids & l[1])
-                    if w[0] == "macro" and a.startswith("throw") and bin(ids).count("1") >= 2:
-                        want = a          # documented: the pre-check macros take a single log id
+                    if w[0] == "macro" and any((ids & l[1]) and ids != l[1] for l in ref.logs):
+                        # documented: the pre-check macros take a single log id; exactly when the id set
+                        # contains a log's id and another bit getLog( ids) throws (theorem C14_macro_exact);
+                        # with a single id (known or not) the macro must deliver like the plain send
+                        want = "throw runtime_error"
                 if want is None:
                     want = "ok" + "".join(" %s=%d" % c for c in ref.counts(sel, lv, cl))
             elif w[0] == "sweep":
@@ -298,6 +301,18 @@ def judge(prop, case, impl, model):
                 else:
                     ids = int(w[1])
                     sel = lambda l: bool(ids & l[1])
+                    # C14_macro_exact: discard_by_level( ids, ...) throws exactly when the id set contains a
+                    # log's id and another bit, otherwise it returns a boolean
+                    overlap = any((ids & l[1]) and ids != l[1] for l in ref.logs)
+                    if w[0] == "presweep":          # one character per level: t / f / E (threw)
+                        if overlap:
+                            want = "ok EEEEEEE"
+                        elif "E" in a or not a.startswith("ok "):
+                            want = "ok <seven booleans>"
+                    elif overlap:
+                        want = "throw runtime_error"
+                    elif not a.startswith("ok"):
+                        want = "ok discard=<a boolean>"
                 levels = range(7) if w[0] == "presweep" else [int(w[2])]
                 flags = a[3:] if w[0] == "presweep" and a.startswith("ok ") else None
                 for k, lv in enumerate(levels):
